@@ -76,6 +76,13 @@ def make(ctx, nd=None, kmin=1, n_max=None, min_n=1):
     rng = ctx.rng
     spec = gen.rand_meshspec(rng, nd=nd, n_max=n_max or (8 if ctx.thorough else 6), min_n=min_n,
                              scale_decades=(-9, 3), max_cells=3000)
+    if rng.random() < 0.15 and not spec.int_corners and not spec.dyadic:
+        # far from the origin compared with the cell (a film 0.5 mm away cut into nm
+        # cells): 1e4..1e6 edge lengths; one-cell-thick subregions included
+        mag = 10.0 ** rng.uniform(4, 6)
+        pmin = rng.choice([-1, 1], spec.nd) * mag * spec.cell * spec.n
+        spec = gen.MeshSpec(pmin, spec.cell, spec.n, spec.dims, spec.units, spec.flip)
+        ctx.event("far_mesh")
     for _ in range(20):
         boxes, regions = gen.rand_subregions(rng, spec, kmax=3)
         if len(boxes) >= kmin:
